@@ -790,3 +790,44 @@ func allPkgFuncs(pkg *ssa.Package) []*ssa.Function {
 	}
 	return uniq
 }
+
+// StoredInField: v — a call result or other register, possibly seen through the load that copies it for a value receiver — is
+// stored by exactly one Store of its function into field `field` of a struct of named type owner, and is otherwise only loaded or
+// used as the first argument (receiver) of static calls: `pm := newProgramMap(); pm.setUnlocked(…); m := &Muxer{pm: pm}`. What is
+// done to v is done to that field of the object being built. It returns the store (nil when v is not of that shape).
+func StoredInField(v ssa.Value, pkgPath, owner, field string) *ssa.Store {
+	if u, ok := v.(*ssa.UnOp); ok && u.Op == token.MUL {
+		v = u.X
+	}
+	if _, isInstr := v.(ssa.Instruction); !isInstr || v.Referrers() == nil {
+		return nil
+	}
+	var found *ssa.Store
+	for _, r := range *v.Referrers() {
+		switch x := r.(type) {
+		case *ssa.DebugRef:
+		case *ssa.UnOp:
+			if x.Op != token.MUL {
+				return nil
+			}
+		case *ssa.Store:
+			fa, ok := x.Addr.(*ssa.FieldAddr)
+			if !ok || x.Val != v || found != nil {
+				return nil
+			}
+			n, _ := FieldName(fa)
+			pt, isP := fa.X.Type().Underlying().(*types.Pointer)
+			if n != field || !isP || !IsNamed(pt.Elem(), pkgPath, owner) {
+				return nil
+			}
+			found = x
+		case ssa.CallInstruction:
+			if x.Common().StaticCallee() == nil || len(x.Common().Args) == 0 || x.Common().Args[0] != v {
+				return nil
+			}
+		default:
+			return nil
+		}
+	}
+	return found
+}
